@@ -83,6 +83,24 @@ pub fn plan_attacker(w: &World, knobs: &Knobs, actor: &mut Actor, l: &Ledger) ->
             _ => (ix::collect_fees_v2(&la), "collect_fees_v2"),
         }
     };
+    // rewards: collect index i out of the vault that is registered for index j (same mint)
+    if rng.chance(1, 4) {
+        if let Some(pool) = l.data(&p.whirlpool).and_then(decode::pool) {
+            let pairs: Vec<(usize, usize)> = (0..3).flat_map(|i| (0..3).map(move |j| (i, j))).filter(|(i, j)| i != j && pool.rewards[*i].initialized() && pool.rewards[*j].initialized() && pool.rewards[*i].mint == pool.rewards[*j].mint).collect();
+            if !pairs.is_empty() {
+                let (i, j) = pairs[rng.idx(pairs.len())];
+                if let Some(own) = actor.tokens.get(&pool.rewards[i].mint) {
+                    let mut r = pool.rewards[i].clone();
+                    r.vault = pool.rewards[j].vault;
+                    let upd = ix::update_fees_and_rewards(&pi.keys.whirlpool, &pk.position, &la.ta_lower, &la.ta_upper);
+                    let col = crate::gen2::collect_reward_ix(rng, &pi.keys, &actor.wallet, pk, i as u8, &r, own);
+                    flow.push((Tx { ixs: vec![upd, col] }, "attacker: collect_reward out of another index's vault".into()));
+                    actor.rng = rng.clone();
+                    return flow;
+                }
+            }
+        }
+    }
     match rng.below(4) {
         3 => {
             // a swap with the trader's own token account in a vault slot
